@@ -75,6 +75,11 @@ func TestPlan(t *testing.T) {
 		}
 		p.Shards = append(p.Shards, rs...)
 	default:
+		if id() == "C16" {
+			// a lexer that dies or never ends its stream does not deliver "a finite stream ending in EOF or an error token"
+			p.CrashIsViolation = true
+			p.ReplayKindCrash = "input-inflight"
+		}
 		p.Shards = append(p.Shards, enum...)
 		p.Shards = append(p.Shards, ev.RapidShards("prog", "^TestProg$", nr, checks, nil)...)
 		p.Shards = append(p.Shards, ev.RapidShards("soup", "^TestSoup$", nr, checks*2, nil)...)
@@ -240,8 +245,12 @@ func TestC06Prog(t *testing.T) {
 // TestProg feeds generated programs in random layouts to the input-level properties.
 func TestProg(t *testing.T) {
 	s := ev.Open(t, id())
+	s.Watchdog(10*time.Second, 6<<30)
+	defer s.Done()
 	rp.Check(t, s, "input", func(rt *rapid.T) InputCase { return genProg(rt).Src }, func(c InputCase) *rp.Fail {
 		x := c.input()
+		s.Progress(0, []byte(x))
+		s.Tick()
 		if s.WantSample() {
 			s.Sample(c.Text)
 		}
